@@ -320,6 +320,19 @@ def body_canonical(case, ctx):
         b = np.asarray(geo[nm])
         ctx.close("canonical(word) = inverse transpose of geometric(word)", a @ b.T, np.eye(n),
                   rtol=0, atol=1e-11 * (np.linalg.norm(a, 2) * np.linalg.norm(b, 2)), word=w)
+    # the ball of the group in both representations through ONE automaton object (first the
+    # geometric, then the canonical one): what the first enumeration computed belongs to it
+    if n <= 3 and all(len(nm_) == 1 for nm_ in names):
+        aut = G.automaton()
+        ga, gw = geo.automaton_accepted(aut, 3, with_words=True)
+        ca, cw = can.automaton_accepted(aut, 3, with_words=True)
+        ctx.check(list(gw) == list(cw), "the same automaton gives the same words for both "
+                  "representations")
+        for w_, a_, c_ in zip(gw, np.asarray(ga), np.asarray(ca)):
+            ctx.close("canonical image of an enumerated word = inverse transpose of its "
+                      "geometric image", c_ @ a_.T, np.eye(n), rtol=0,
+                      atol=1e-10 * np.linalg.norm(a_, 2) * np.linalg.norm(c_, 2), word=w_)
+        ctx.label("two-representations-one-automaton")
     # "the canonical representation is its dual", through the public dual() of the geometric
     # representation object that has just evaluated these words (what it computed for itself
     # is not what its dual answers), and the dual of the dual
@@ -527,6 +540,19 @@ def body_cartan(case, ctx):
         ctx.close("tits_vinberg: rho(s_i) = I - E_ii C for the Cartan matrix returned by "
                   "cartan_matrix", R[i], X.reflection(Cp, i), rtol=0, atol=1e-12)
     check_relations(ctx, "tits_vinberg", R, M, cartan=Cp)
+    # crystallographic case (labels 2, 3, infinity; integral parameters): with dtype=int the
+    # same representation comes back in exact integers
+    if all(m_ in (1, 2, 3) or X.is_inf(m_) for row in M for m_ in row) and \
+            np.allclose(Cp, np.round(Cp), atol=1e-12) and case["rename"] is None:
+        ctx.label("integral-cartan-matrix")
+        tvi = G.tits_vinberg_rep(params, dtype=int)
+        for i, nm in enumerate(names):
+            Ai = np.asarray(tvi[nm] if len(nm) == 1 else tvi[[nm]])
+            ctx.check(Ai.dtype.kind == "i", "tits_vinberg_rep(dtype=int): integer matrices",
+                      dtype=str(Ai.dtype))
+            ctx.check(np.array_equal(permuted(Ai, G, names), np.round(R[i]).astype(int)),
+                      "tits_vinberg_rep(dtype=int) = the float representation, exactly",
+                      got=permuted(Ai, G, names).tolist(), want=np.round(R[i]).tolist())
     # the same through cartan_representation on a harness-made Cartan matrix (all
     # parameters honoured, also on 0-coded edges)
     Cfull = 2 * B
@@ -688,6 +714,17 @@ def body_triangle(case, ctx):
             # (the ideal vertex) is only determined to eps^(1/3) ~ 6e-6 by any eigen-solver
             ctx.close("interior angle pi/m at a finite vertex of a triangle with ideal "
                       "vertices", ang, math.pi / orders[k], rtol=0, atol=2e-4, k=k,
+                      pqr=[p, q, r])
+    # the same angles measured the way a user would: with the library's tangent vectors at
+    # the reported fixed points (fresh Point objects, nothing queried on them before)
+    if ninf == 0:
+        for k in range(3):
+            A_ = hyperbolic.Point(V[k].copy())
+            t1 = A_.unit_tangent_towards(hyperbolic.Point(V[(k + 1) % 3].copy()))
+            A2 = hyperbolic.Point(V[k].copy())
+            t2 = A2.unit_tangent_towards(hyperbolic.Point(V[(k + 2) % 3].copy()))
+            ctx.close("angle between the library's unit tangents at a vertex is pi/m",
+                      float(t1.angle(t2)), math.pi / orders[k], rtol=0, atol=1e-6, k=k,
                       pqr=[p, q, r])
     # the three mirrors: each generator fixes the two vertices on its wall
     gens_ = hyp.isometries(["a", "b", "c"])
